@@ -36,6 +36,8 @@ def texts_for(tier, nonascii=False):
     n = 3 if tier == 'quick' else 4
     out = [''.join(p) for k in range(0, n + 1) for p in itertools.product('ab\n', repeat=k)]
     out += ["'ab'", "a'b'\n'a", '"a"b""']
+    # long texts: many matches, positions with two and three digits, many lines
+    out += ['ab' * 12, 'aab\n' * 8, 'a' * 33, 'ab\n' * 10 + 'b', 'b' * 9 + 'a' + 'b' * 95 + 'ab', ('a' * 7 + '\n') * 15 + 'ba']
     if nonascii:
         out += ['äa€b\nab', 'a\nb一a\n', '\U0001F600ab\nAB', 'bß\na']
     return out
